@@ -190,7 +190,29 @@ func genC18(r *Rng, tier string, o *Out) {
 					cp := append([]byte{}, d...)
 					readpos += len(cp)
 					fmt.Fprintf(&sb, " A %s", hexs(cp))
-				case c >= 97 && !directed: // the reader detaches and attaches again (Dastard stop/start): nothing may change
+				case c == 96 && !directed: // ReadMinimum: refused when k >= size, otherwise (k bytes being readable) everything
+				kk := r.Pick(0, 1, rd.BytesReadable(), rd.BytesReadable()/2, capv, capv+1, capv-1)
+				if kk < capv && kk > rd.BytesReadable() {
+					kk = rd.BytesReadable() // never a call that would block
+				}
+				if kk < 0 {
+					kk = 0
+				}
+				cur = fmt.Sprintf("N %d", kk)
+				d, err := rd.ReadMinimum(kk)
+				if err != nil {
+					fmt.Fprintf(&sb, " N %d E", kk)
+				} else {
+					cp := append([]byte{}, d...)
+					readpos += len(cp)
+					fmt.Fprintf(&sb, " N %d %s", kk, hexs(cp))
+				}
+			case c == 95 && !directed && !big: // DiscardAll
+				cur = "X"
+				rd.DiscardAll()
+				readpos = written
+				fmt.Fprintf(&sb, " X %d", rd.BytesReadable())
+			case c >= 97 && !directed: // the reader detaches and attaches again (Dastard stop/start): nothing may change
 					cur = "O"
 					rd.Close()
 					rd, _ = ringbuffer.NewRingBuffer(raw, desc)
